@@ -454,11 +454,15 @@ def parseNames (env : PEnv) : List Tok → Option (List Name)
     | some n, some r => some (n :: r)
     | _, _ => none
 
+/-- the tail parser with the `from_text` arguments (only the names tail needs them) -/
+def parseTailE (env : PEnv) (vals : List FV) (tk : TK) (toks : List Tok) : Option (Option FV) :=
+  if tk = .names then (parseNames env toks).map (fun ns => some (.nl ns)) else parseTail vals tk toks
+
 def parseRec (sch : Schema) (env : PEnv) (toks : List Tok) : Option (List FV × Option FV) :=
   match parseFields env sch.fields toks with
   | none => none
   | some (vals, rest) =>
-    match (if sch.tail = .names then (parseNames env rest).map (fun ns => some (.nl ns)) else parseTail vals sch.tail rest) with
+    match parseTailE env vals sch.tail rest with
     | none => none
     | some tail => if sch.check vals tail then some (vals, tail) else none
 
@@ -568,28 +572,31 @@ def encName (origin : Option Name) (n : Name) : Option Bytes :=
     | some o => if isAbs o then some (toWire (n ++ o)) else none
     | none => none
 
+/-- `struct.pack` raises when the value does not fit the format: `none` -/
+def packGuard (c : Bool) (b : Bytes) : Option Bytes := if c then some b else none
+
 /-- `to_wire(origin=origin)` of one field -/
 def encField (origin : Option Name) : FK → FV → Option Bytes
-  | .uint max, .n v => some (beBytes (widthOf max) v)
-  | .oct16, .n v => some (beBytes 2 v)
-  | .ttl, .n v => some (beBytes 4 v)
+  | .uint max, .n v => packGuard (decide (v < 256 ^ widthOf max)) (beBytes (widthOf max) v)
+  | .oct16, .n v => packGuard (decide (v < 65536)) (beBytes 2 v)
+  | .ttl, .n v => packGuard (decide (v < 4294967296)) (beBytes 4 v)
   | .name, .nm n => encName origin n
-  | .cstr _ _ _, .b s => some (s.length :: s)
-  | .ip4, .b a => some a
-  | .ip6, .b a => some a
-  | .algo, .n v => some [v]
-  | .salt, .b s => some (s.length :: s)
+  | .cstr _ _ _, .b s => packGuard (decide (s.length < 256)) (s.length :: s)
+  | .ip4, .b a => packGuard (decide (a.length = 4)) a
+  | .ip6, .b a => packGuard (decide (a.length = 16)) a
+  | .algo, .n v => packGuard (decide (v < 256)) [v]
+  | .salt, .b s => packGuard (decide (s.length < 256)) (s.length :: s)
   | .eui _, .b s => some s
   | .hex16x4, .b s => some s
   | .nsap, .b s => some s
-  | .rdtype, .n v => some (beBytes 2 v)
-  | .algoName, .n v => some [v]
-  | .scheme, .n v => some [v]
-  | .ctype, .n v => some (beBytes 2 v)
-  | .keyFlags, .n v => some (beBytes 2 v)
-  | .keyProto, .n v => some [v]
-  | .sigtime, .n v => some (beBytes 4 v)
-  | .b32hex, .b s => some (s.length :: s)
+  | .rdtype, .n v => packGuard (decide (v < 65536)) (beBytes 2 v)
+  | .algoName, .n v => packGuard (decide (v < 256)) [v]
+  | .scheme, .n v => packGuard (decide (v < 256)) [v]
+  | .ctype, .n v => packGuard (decide (v < 65536)) (beBytes 2 v)
+  | .keyFlags, .n v => packGuard (decide (v < 65536)) (beBytes 2 v)
+  | .keyProto, .n v => packGuard (decide (v < 256)) [v]
+  | .sigtime, .n v => packGuard (decide (v < 4294967296)) (beBytes 4 v)
+  | .b32hex, .b s => packGuard (decide (s.length < 256)) (s.length :: s)
   | _, _ => none
 
 /-- CAA's value and URI's target are not length-prefixed: they are the rest of the rdata -/
@@ -613,9 +620,10 @@ def encTail : TK → Option FV → Option Bytes
   | .hex, some (.b d) => some d
   | .b64 _, some (.b d) => some d
   | .keyB64, some (.b d) => some d
-  | .bitmap, some (.wl ws) => some (ws.flatMap fun w => w.1 :: w.2.length :: w.2)
-  | .txt, some (.bl ss) => some (ss.flatMap fun s => s.length :: s)
-  | .optCstr, some (.b s) => some (if s = [] then [] else s.length :: s)
+  | .bitmap, some (.wl ws) =>
+    packGuard (ws.all fun w => decide (w.1 < 256) && decide (w.2.length < 256)) (ws.flatMap fun w => w.1 :: w.2.length :: w.2)
+  | .txt, some (.bl ss) => packGuard (ss.all fun s => decide (s.length < 256)) (ss.flatMap fun s => s.length :: s)
+  | .optCstr, some (.b s) => packGuard (decide (s.length < 256)) (if s = [] then [] else s.length :: s)
   | _, _ => none
 
 def encRec (tname : String) (sch : Schema) (origin : Option Name) (vals : List FV) (tail : Option FV) : Option Bytes :=
